@@ -181,7 +181,7 @@ def check_entry(rep, facts, label, entry, counters):
         why = ""
         for wn in g.all_nodes():
             we = ev.at(wn)
-            if we is not None and we[0] == 'WRITE' and we[1] in ("poll_write", "poll_write_vectored") and common.derives_from_site(arg, wn.frame.id, wn.bb):
+            if we is not None and we[0] == 'WRITE' and we[1] in ("poll_write", "poll_write_vectored", "await_count") and common.derives_from_site(arg, wn.frame.id, wn.bb):
                 if E.subject_class(we[2]) == 'str_out':
                     ok = True
                     why = "amount = byte count returned by the poll_write of output_buffer()"
